@@ -101,7 +101,7 @@ def _replay_file(wd, binp, prop, npages, path, tag, nparts):
         pf = os.path.join(wd, "%s_part%d.ndjson" % (tag, i))
         open(pf, "w").write("\n".join(parts[i]) + "\n")
         rf = os.path.join(wd, "%s_res%d.json" % (tag, i))
-        p = subprocess.run([binp, "sched", prop, str(npages), pf, rf], stdout=subprocess.PIPE, stderr=subprocess.STDOUT, text=True,
+        p = run_harness([binp, "sched", prop, str(npages), pf, rf], stdout=subprocess.PIPE, stderr=subprocess.STDOUT, text=True,
                            timeout=HARNESS_TIMEOUT)
         if p.returncode != 0:
             raise Broken("sched failed: " + p.stdout[-1500:])
@@ -150,7 +150,7 @@ def replay(wd, prop, rp, path):
     pf = os.path.join(wd, "one.ndjson")
     open(pf, "w").write(json.dumps(rp["behaviour"]) + "\n")
     rf = os.path.join(wd, "one.json")
-    p = subprocess.run([binp, "sched", prop, str(rp["npages"]), pf, rf], stdout=subprocess.PIPE, stderr=subprocess.STDOUT, text=True,
+    p = run_harness([binp, "sched", prop, str(rp["npages"]), pf, rf], stdout=subprocess.PIPE, stderr=subprocess.STDOUT, text=True,
                        timeout=HARNESS_TIMEOUT)
     if p.returncode != 0:
         raise Broken("sched failed: " + p.stdout[-1500:])
